@@ -518,3 +518,14 @@ _def(tl_all_wf, [tl_], z3.If(TLs.is_('tnil', tl_), True,
                                     tl_all_wf(TLs.get('tcons', 'ttl', tl_)))))
 mwf_rs = _rec('mwf_rs', MMap, B)
 _def(mwf_rs, [mm], z3.If(MMp.is_('mnil', mm), True, z3.And(wf_rs(MMp.get('mcons', 'mval', mm)), mwf_rs(MMp.get('mcons', 'mtl', mm)))))
+
+# ---- take / drop / remove (iterator adaptors, Vec::remove) ---------------------------------------------------------------------
+il_take = _rec('il_take', I, IdL, IdL)
+_def(il_take, [i_, _l], z3.If(z3.Or(i_ <= 0, IDL.is_('inil', _l)), IDL.mk('inil'),
+                              IDL.mk('icons', IDL.get('icons', 'ihd', _l), il_take(i_ - 1, IDL.get('icons', 'itl', _l)))), dec=1)
+il_drop = _rec('il_drop', I, IdL, IdL)
+_def(il_drop, [i_, _l], z3.If(z3.Or(i_ <= 0, IDL.is_('inil', _l)), _l, il_drop(i_ - 1, IDL.get('icons', 'itl', _l))), dec=1)
+ml_remove_at = _rec('ml_remove_at', ML, I, ML)
+_def(ml_remove_at, [ml_, i_], z3.If(MLs.is_('lnil', ml_), ml_,
+                                    z3.If(i_ == 0, MLs.get('lcons', 'ltl', ml_),
+                                          MLs.mk('lcons', MLs.get('lcons', 'lhd', ml_), ml_remove_at(MLs.get('lcons', 'ltl', ml_), i_ - 1)))))
